@@ -37,7 +37,7 @@ func init() {
 		Assumptions: []string{
 			"hang = one input consuming more than 30 CPU-seconds; network access is impossible (reader overridden by an in-memory file system)",
 		},
-		Shards:         func(string) int { return 16 + len(c20CrashProbes()) }, // 16 workload shards + one process per crash probe
+		Shards:         func(string) int { return 16 + len(c20CrashProbes()) + 1 }, // 16 workload shards + one process per crash probe + the file entry points
 		Run:            runC20,
 		CrashFeatures: func(caseDesc string) map[string]string {
 			if strings.Contains(caseDesc, "probe:nonproductive-schema-cycle") {
@@ -67,6 +67,8 @@ func runC20(c *core.Ctx) {
 			in.origin = "probe:nonproductive-schema-cycle " + in.origin
 			c.Cover("probes", in.origin)
 			c20Run(c, in)
+		} else if i == len(probes) {
+			c20Files(c)
 		}
 		return
 	}
@@ -359,6 +361,50 @@ func c20RefGraphs() []c20input {
 		out = append(out, c20input{origin: "ref-into-extension-array token " + tok, data: b})
 		b2, _ := json.Marshal(gen.S{"openapi": "3.0.3", "info": gen.S{"title": "t", "version": "1"}, "paths": gen.S{"/x": gen.S{"get": gen.S{"parameters": gen.Arr(gen.S{"name": "q", "in": "query", "schema": gen.S{"$ref": "#/servers/" + tok}}), "responses": gen.S{"200": gen.S{"description": "d"}}}}}, "servers": gen.Arr(gen.S{"url": "/"})})
 		out = append(out, c20input{origin: "ref-into-servers token " + tok, data: b2})
+	}
+	// acyclic graphs with fan-in at every level: level i refers to level i+1 twice, so there are 2^n paths to the last one
+	for _, n := range []int{8, 40} {
+		for _, kw := range []string{"properties", "allOf", "items+additionalProperties"} {
+			level := func(prefix string, i int) gen.S {
+				next := gen.S{"$ref": fmt.Sprintf("%s#/components/schemas/D%d", prefix, i+1)}
+				switch kw {
+				case "properties":
+					return gen.S{"type": "object", "properties": gen.S{"a": next, "b": next}}
+				case "allOf":
+					return gen.S{"allOf": gen.Arr(next, next)}
+				}
+				return gen.S{"type": "object", "properties": gen.S{"l": gen.S{"type": "array", "items": next}}, "additionalProperties": next}
+			}
+			for _, where := range []string{"root", "external"} {
+				prefix := ""
+				schemas := gen.S{}
+				for i := 0; i < n; i++ {
+					schemas[fmt.Sprintf("D%d", i)] = level(prefix, i)
+				}
+				schemas[fmt.Sprintf("D%d", n)] = gen.S{"type": "string"}
+				paths := func(ref string) gen.S {
+					return gen.S{"/d": gen.S{"post": gen.S{"requestBody": gen.S{"content": gen.S{"application/json": gen.S{"schema": gen.S{"$ref": ref}}}}, "responses": gen.S{"200": gen.S{"description": "d", "content": gen.S{"application/json": gen.S{"schema": gen.S{"$ref": ref}}}}}}}}
+				}
+				origin := fmt.Sprintf("fan-in-chain-%d through %s in the %s document", n, kw, where)
+				if where == "root" {
+					out = append(out, c20input{origin: origin, data: mk(gen.S{"schemas": schemas}, paths("#/components/schemas/D0"))})
+					continue
+				}
+				lib := mk(gen.S{"schemas": schemas}, nil)
+				root := mk(gen.S{"schemas": gen.S{"Top": gen.S{"$ref": "lib.json#/components/schemas/D0"}}}, paths("lib.json#/components/schemas/D0"))
+				out = append(out, c20input{origin: origin, data: root, files: map[string]string{"root.json": string(root), "lib.json": string(lib)}, root: "root.json"})
+				out = append(out, c20input{origin: origin + " (abs)", data: root, files: map[string]string{"/abs/dir/root.json": string(root), "/abs/dir/lib.json": string(lib)}, root: "/abs/dir/root.json"})
+			}
+		}
+		// the same through callbacks: callback i has an operation whose two callbacks are both callback i+1
+		cbs := gen.S{}
+		for i := 0; i < n; i++ {
+			next := gen.S{"$ref": fmt.Sprintf("#/components/callbacks/K%d", i+1)}
+			cbs[fmt.Sprintf("K%d", i)] = gen.S{"{$request.body#/u}": gen.S{"post": gen.S{"responses": gen.S{"200": gen.S{"description": "d"}}, "callbacks": gen.S{"a": next, "b": next}}}}
+		}
+		cbs[fmt.Sprintf("K%d", n)] = gen.S{"{$request.body#/u}": gen.S{"post": gen.S{"responses": gen.S{"200": gen.S{"description": "d"}}}}}
+		paths := gen.S{"/k": gen.S{"post": gen.S{"responses": gen.S{"200": gen.S{"description": "d"}}, "callbacks": gen.S{"start": gen.S{"$ref": "#/components/callbacks/K0"}}}}}
+		out = append(out, c20input{origin: fmt.Sprintf("fan-in-chain-%d through callbacks", n), data: mk(gen.S{"callbacks": cbs}, paths)})
 	}
 	// long chains
 	for _, n := range []int{10, 200, 1000} {
